@@ -261,13 +261,6 @@ Definition gcode (c : Z * Z * Z * path) : Z :=
 Definition gcell_box (g : grid) (c : Z * Z * Z * path) : box :=
   let '(ix, iy, iz, p) := c in box_of_path (block_box g ix iy iz) p.
 
-(* AMRDensityGrid: largest odd factor / power of two of a cell count, block counts and start level *)
-Fixpoint odd_factor (fuel : nat) (n : Z) : Z :=
-  match fuel with
-  | O => n
-  | S f => if (0 <? n) && (n mod 2 =? 0) then odd_factor f (n / 2) else n
-  end.
-
 (* ------------------------------------------------------------------------- *)
 (* B.  Morton keys (MortonKeyGenerator::get_key after the conversion to 21-bit integers)   *)
 
